@@ -177,8 +177,41 @@ func (m *MonC09) heldWithoutSubscription(w *World) {
 		if !c.Dialed || c.EOF || c.Closed {
 			continue
 		}
+		// what the client holds through live resources only: below a deleted
+		// resource (whose copy is frozen) the gateway follows no references
+		live := map[string]bool{}
+		var stack []string
+		for rid, n := range c.Ref.Direct {
+			if r := c.Ref.Held[rid]; n > 0 && r != nil && !r.Deleted {
+				live[rid] = true
+				stack = append(stack, rid)
+			}
+		}
+		for len(stack) > 0 {
+			rid := stack[len(stack)-1]
+			stack = stack[:len(stack)-1]
+			r := c.Ref.Held[rid]
+			visit := func(v interface{}) {
+				if ref, ok := isRef(v); ok {
+					if x := c.Ref.Held[ref]; x != nil && !x.Deleted && !live[ref] {
+						live[ref] = true
+						stack = append(stack, ref)
+					}
+				}
+			}
+			for _, v := range r.Model {
+				visit(v)
+			}
+			for _, v := range r.Coll {
+				visit(v)
+			}
+		}
 		for rid, r := range c.Ref.Held {
 			if r.Deleted || r.Type == 'e' {
+				continue
+			}
+			if !live[rid] {
+				m.class("held_only_below_a_deleted_resource")
 				continue
 			}
 			n, _ := w.expandRID(c, rid)
